@@ -366,6 +366,55 @@ impl RedeemNode {
             }
         }
 
+        /// Rebuilds the pruned program in an inference context of its own.
+        ///
+        /// The `Pruner` types every node of the unpruned program, including the branches
+        /// that it then hides. Nodes that a hidden branch shares with the rest of the
+        /// program would keep the type constraints of the hidden branch, and the pruned
+        /// program would not be annotated with its principal types: its serialization
+        /// (whose decoder infers the principal types) could then fail to decode.
+        struct Retyper<'brand> {
+            inference_context: types::Context<'brand>,
+        }
+
+        impl<'old, 'brand> Converter<Construct<'old>, Construct<'brand>> for Retyper<'brand> {
+            type Error = std::convert::Infallible;
+
+            fn convert_witness(
+                &mut self,
+                _: &PostOrderIterItem<&ConstructNode<'old>>,
+                witness: &Option<Value>,
+            ) -> Result<Option<Value>, Self::Error> {
+                Ok(witness.clone())
+            }
+
+            fn convert_disconnect(
+                &mut self,
+                _: &PostOrderIterItem<&ConstructNode<'old>>,
+                right: Option<&Arc<ConstructNode<'brand>>>,
+                _: &Option<Arc<ConstructNode<'old>>>,
+            ) -> Result<Option<Arc<ConstructNode<'brand>>>, Self::Error> {
+                Ok(right.map(Arc::clone))
+            }
+
+            fn convert_data(
+                &mut self,
+                _: &PostOrderIterItem<&ConstructNode<'old>>,
+                inner: Inner<
+                    &Arc<ConstructNode<'brand>>,
+                    &Option<Arc<ConstructNode<'brand>>>,
+                    &Option<Value>,
+                >,
+            ) -> Result<ConstructData<'brand>, Self::Error> {
+                let converted_inner = inner
+                    .map(|node| node.cached_data())
+                    .map_witness(Option::<Value>::clone);
+                let retyped = ConstructData::from_inner(&self.inference_context, converted_inner)
+                    .expect("pruned types should check out if unpruned types check out");
+                Ok(retyped)
+            }
+        }
+
         struct Finalizer;
 
         impl<'brand> Converter<Construct<'brand>, Redeem> for Finalizer {
@@ -436,12 +485,20 @@ impl RedeemNode {
                 })
                 .expect("pruning unused branches is infallible");
 
-            // 3) Finalize the types of the witness program.
-            // We obtain the pruned redeem program.
-            // Once the pruned type is finalized, we can proceed to prune witness values.
-            Ok(pruned_witness_program
-                .convert::<InternalSharing, _, _>(&mut Finalizer)
-                .expect("finalization is infallible"))
+            // 3) Infer the types of the pruned program on its own,
+            // without the constraints of the branches that were hidden.
+            types::Context::with_context(|inference_context| {
+                let retyped_witness_program = pruned_witness_program
+                    .convert::<InternalSharing, _, _>(&mut Retyper { inference_context })
+                    .expect("retyping the pruned program is infallible");
+
+                // 4) Finalize the types of the witness program.
+                // We obtain the pruned redeem program.
+                // Once the pruned type is finalized, we can proceed to prune witness values.
+                Ok(retyped_witness_program
+                    .convert::<InternalSharing, _, _>(&mut Finalizer)
+                    .expect("finalization is infallible"))
+            })
         })
     }
 
